@@ -21,6 +21,7 @@ def run(m: Model, r: Report, tier: str) -> None:
     r.rule("R2", "a read awaits exactly one delimiter-framed primitive, directly under the timeout scope (cancellation consumes nothing)", floor=3)
     r.rule("R3", "every write is followed by drain", floor=2)
     r.rule("R4", "end-of-stream is distinguishable: the server loop ends on an empty line, the client returns b''", floor=2)
+    r.rule("R6", "one line per reply: 'no reply' is None at the producer (handle_request) and every server loop writes iff the value is not None", floor=3)
     r.rule("R5", "stream limits do not cut off maximal UDS messages (the hex line of a 4095-byte PDU is 8191 bytes)", floor=2)
 
     cw = m.require_function(f"{BASE}.LinesTransportMixin.write")
@@ -71,6 +72,41 @@ def run(m: Model, r: Report, tier: str) -> None:
     conts = [n for n in ast.walk(loops[0]) if isinstance(n, ast.Continue)] if loops else []
     r.check(not conts, "R4", f"{hc.qualname}#no-continue", "the server loop must not `continue` without consuming input", loc=hc.loc)
     r.check(m.has(cr, "binascii.unhexlify(d)"), "R4", f"{cr.qualname}#eof-is-empty", "client EOF must surface as b''", loc=cr.loc)
+
+    # ---------------------------------------------------------------- R6
+    hr = m.require_function(f"{SRV}.UDSServerTransport.handle_request")
+    forms = []
+    for n in walk_no_nested(hr.node):
+        if isinstance(n, ast.Return) and n.value is not None:
+            first = n.value.elts[0] if isinstance(n.value, ast.Tuple) and n.value.elts else n.value
+            if isinstance(first, ast.Constant) and first.value is None:
+                forms.append("None")
+            elif isinstance(first, ast.Attribute) and first.attr == "pdu":
+                forms.append("pdu")
+            else:
+                forms.append(ast.unparse(first))
+    r.check("pdu" in forms and set(forms) <= {"pdu", "None"}, "R6", f"{hr.qualname}#no-reply-is-None",
+            f"handle_request returns {sorted(set(forms))} as reply bytes: 'nothing to send' must be None (the loops test `is not None`); an empty byte string "
+            "is written as an empty line, which the client reads as a reply / end-of-stream and every later reply arrives one read late", loc=hr.loc)
+    n_cons = 0
+    for f in m.functions():
+        if f.module.name != SRV:
+            continue
+        for n in ast.walk(f.node):
+            if isinstance(n, ast.Assign) and isinstance(n.targets[0], ast.Tuple) and "self.handle_request(" in ast.unparse(n.value) and isinstance(n.targets[0].elts[0], ast.Name):
+                n_cons += 1
+                xv = n.targets[0].elts[0].id
+                writes = [c for c in ast.walk(f.node) if isinstance(c, ast.Call) and isinstance(c.func, ast.Attribute) and c.func.attr == "write"
+                          and any(isinstance(x, ast.Name) and x.id == xv for a in c.args for x in ast.walk(a))]
+                guarded = []
+                for c in writes:
+                    ok_g = any(isinstance(i, ast.If) and ast.unparse(i.test) == f"{xv} is not None" and any(c is x for b_ in i.body for x in ast.walk(b_))
+                               for i in ast.walk(f.node))
+                    guarded.append(ok_g)
+                r.check(bool(writes) and all(guarded), "R6", f"{f.qualname}#writes-iff-reply",
+                        f"the reply {xv} of handle_request must be written exactly when it `is not None`", loc=f"{f.module.relpath}:{n.lineno}")
+    if n_cons < 2:
+        raise AnalysisError(f"only {n_cons} consumers of handle_request found")
 
     # ---------------------------------------------------------------- R5
     for q in (f"{SRV}.TCPUDSServerTransport.run", f"{SRV}.UnixUDSServerTransport.run"):
